@@ -20,4 +20,12 @@ int  ied_decode_neg_ok(const uint8_t s[32]);             /* ge25519_frombytes_ne
 int  ied_small_order_enc(const uint8_t s[32], int negated); /* has_small_order(decode(s)) */
 /* has_small_order(R - (S*B + h*(-A))) for R = decode(r), -A = decode_neg(pk) */
 int  ied_check_small(const uint8_t r[32], const uint8_t h[32], const uint8_t pk[32], const uint8_t S[32]);
+int  ied_on_curve_enc(const uint8_t s[32]);
+int  ied_main_subgroup_enc(const uint8_t s[32]);
+void ied_scalarmult_bytes(uint8_t out[32], const uint8_t t[32], const uint8_t p_enc[32]); /* enc(t * dec(p)) */
+void ied_addsub_bytes(uint8_t out[32], const uint8_t p_enc[32], const uint8_t q_enc[32], int sub);
+void ied_sc_mul(uint8_t s[32], const uint8_t a[32], const uint8_t b[32]);
+void ied_sc_invert(uint8_t s[32], const uint8_t a[32]);
+void ied_from_uniform(uint8_t s[32], const uint8_t r[32]);
+void ied_from_hash(uint8_t s[32], const uint8_t h[64]);
 #endif
